@@ -1,4 +1,5 @@
 import TinodeVerif.Proofs.Ring
+import TinodeVerif.Proofs.Election
 /-!
 # C17 — cluster nodes agree on topic placement (ring) and on at most one leader per term (election)
 Ring part. Model: `Model/Ring.lean`; the theorems hold for **any** hash function, any replica count and
@@ -106,5 +107,239 @@ theorem ring_add_minimal (h : TotalOrder kle) (hash : String → Nat) (n : Nat) 
       intro e; subst e; exact hx ha
     rw [hf] at this
     exact this.symm
+
+
+/-! ## Election part. Model: `Model/Election.lean` over the guards regenerated in `Gen/Election.lean`. -/
+section election
+open Tinode.Election Tinode.Gen.Election
+
+/-- The statement-level shape of the vote handler, the health handler, the ticker branch and `electLeader`
+that `Model/Election.lean` was written against. A change to those regions of cluster_leader.go changes
+`Gen.Election.shape` and breaks this theorem (the tie), whatever it does to the guards. -/
+def expectedShape : List String := [
+  "vote/if c.fo.term < vreq.req.Term",
+  "vote/then/c.fo.term = vreq.req.Term",
+  "vote/then/c.fo.leader = \"\"",
+  "vote/then/vreq.resp <- ClusterVoteResponse{Result: true, Term: c.fo.term}",
+  "vote/else",
+  "vote/else/vreq.resp <- ClusterVoteResponse{Result: false, Term: c.fo.term}",
+  "health/if health.Term < c.fo.term",
+  "health/then/continue",
+  "health/if health.Term > c.fo.term",
+  "health/then/c.fo.term = health.Term",
+  "health/then/c.fo.leader = health.Leader",
+  "health/else",
+  "health/else/if health.Leader != c.fo.leader",
+  "health/else/then/if c.fo.leader != \"\"",
+  "health/else/then/else",
+  "health/else/then/c.fo.leader = health.Leader",
+  "health/missed = 0",
+  "health/if health.Signature != c.ring.Signature()",
+  "health/then/if rehashSkipped",
+  "health/then/then/c.rehash(health.Nodes)",
+  "health/then/then/c.invalidateProxySubs(\"\")",
+  "health/then/then/c.gcProxySessions(health.Nodes)",
+  "health/then/then/rehashSkipped = false",
+  "health/then/then/globals.hub.rehash <- true",
+  "health/then/else",
+  "health/then/else/rehashSkipped = true",
+  "tick/if c.fo.leader == c.thisNodeName",
+  "tick/then/c.sendHealthChecks()",
+  "tick/else",
+  "tick/else/missed++",
+  "tick/else/if missed >= c.fo.voteTimeout",
+  "tick/else/then/missed = 0",
+  "tick/else/then/c.electLeader()",
+  "elect/c.fo.term++",
+  "elect/c.fo.leader = \"\"",
+  "elect/nodeCount := len(c.nodes)",
+  "elect/expectVotes := (nodeCount+1)>>1 + 1",
+  "elect/done := make(chan *rpc.Call, nodeCount)",
+  "elect/range c.nodes",
+  "elect/range/response := ClusterVoteResponse{}",
+  "elect/range/node.callAsync(\"Cluster.Vote\", &ClusterVoteRequest{ Node: c.thisNodeName, Term: c.fo.term, }, &response, done)",
+  "elect/voteCount := 1",
+  "elect/timeout := time.NewTimer(c.fo.heartBeat>>1 + c.fo.heartBeat)",
+  "elect/for i := 0; i < nodeCount && voteCount < expectVotes; ",
+  "elect/for/select-case call := <-done",
+  "elect/for/case[call := <-done]/if call.Error == nil",
+  "elect/for/case[call := <-done]/then/if call.Reply.(*ClusterVoteResponse).Result",
+  "elect/for/case[call := <-done]/then/then/voteCount++",
+  "elect/for/case[call := <-done]/then/else",
+  "elect/for/case[call := <-done]/then/else/if c.fo.term < call.Reply.(*ClusterVoteResponse).Term",
+  "elect/for/case[call := <-done]/then/else/then/i = nodeCount",
+  "elect/for/case[call := <-done]/then/else/then/voteCount = 0",
+  "elect/for/case[call := <-done]/i++",
+  "elect/for/select-case <-timeout.C",
+  "elect/for/case[<-timeout.C]/i = nodeCount",
+  "elect/if voteCount >= expectVotes",
+  "elect/then/c.fo.leader = c.thisNodeName"
+]
+
+theorem shape_ok : Gen.Election.shape = expectedShape := by rfl
+
+/-- **Signature gate**: both inter-node entry points compare the sender's ring signature with their own and
+do nothing for the request when they differ (TopicMaster additionally reports the rejection). -/
+theorem sig_gate : Gen.Election.signatureGates =
+    ["TopicMaster: if msg.Signature != c.ring.Signature() { *rejected = true; return nil }",
+     "Route: if msg.Signature != c.ring.Signature() { return nil }"] := by decide
+
+/-- A node considers itself leader. -/
+def SelfLeader (w : World) (i : Nat) : Prop := (w.nodes i).leader = some i ∧ (w.nodes i).electing = none
+instance (w : World) (i : Nat) : Decidable (SelfLeader w i) := by unfold SelfLeader; infer_instance
+
+/-- **A node grants at most one vote per term** (its own candidacy counts as its vote), in every reachable state. -/
+theorem one_vote_per_term (n : Nat) (acts : List Act) (v : Nat) (t : Int) (c c' : Nat)
+    (h1 : (v, t, c) ∈ (run (init n) acts).granted) (h2 : (v, t, c') ∈ (run (init n) acts).granted) : c = c' :=
+  (inv_run _ (inv_init n) acts).gfun v t c c' h1 h2
+
+/-- **Majority needed**: a node considers itself leader in term T only if strictly more than half of all
+configured nodes (itself included) voted for it in term T. -/
+theorem majority_needed (n : Nat) (acts : List Act) (i : Nat) (h : SelfLeader (run (init n) acts) i) :
+    ∃ vs : List Nat, vs.Nodup ∧ (∀ v ∈ vs, (v, ((run (init n) acts).nodes i).term, i) ∈ (run (init n) acts).granted) ∧
+      n < 2 * vs.length := by
+  obtain ⟨vs, a, b, c⟩ := (inv_run _ (inv_init n) acts).lead i h.1 h.2
+  refine ⟨vs, a, b, ?_⟩
+  rw [run_n] at c
+  exact elected_majority _ _ c
+
+/-- **Election safety**: whatever messages are lost, delayed or reordered, no two nodes consider themselves
+leader in the same term. -/
+theorem election_safety (n : Nat) (acts : List Act) (i j : Nat)
+    (hi : SelfLeader (run (init n) acts) i) (hj : SelfLeader (run (init n) acts) j)
+    (ht : ((run (init n) acts).nodes i).term = ((run (init n) acts).nodes j).term) : i = j := by
+  have hinv := inv_run _ (inv_init n) acts
+  obtain ⟨vi, ndi, gi, mi⟩ := majority_needed n acts i hi
+  obtain ⟨vj, ndj, gj, mj⟩ := majority_needed n acts j hj
+  by_cases hij : i = j
+  · exact hij
+  · exfalso
+    have hdisj : ∀ a ∈ vi, ∀ b ∈ vj, a ≠ b := by
+      intro a ha b hb hab
+      subst hab
+      have h1 := gi a ha
+      have h2 := gj a hb
+      rw [ht] at h1
+      exact hij (hinv.gfun _ _ _ _ h1 h2)
+    have hnd : (vi ++ vj).Nodup := List.nodup_append.mpr ⟨ndi, ndj, hdisj⟩
+    have hsub : (vi ++ vj) ⊆ List.range n := by
+      intro a ha
+      rcases List.mem_append.mp ha with h | h
+      · have := hinv.glt _ _ _ (gi a h); rw [run_n] at this; exact List.mem_range.mpr this
+      · have := hinv.glt _ _ _ (gj a h); rw [run_n] at this; exact List.mem_range.mpr this
+    have := List.Nodup.length_le_of_subset hnd hsub
+    simp at this
+    omega
+
+/-- **A node's term never decreases.** -/
+theorem term_monotone (w w' : World) (a : Act) (h : step w a = some w') (i : Nat) :
+    (w.nodes i).term ≤ (w'.nodes i).term := by
+  have key : ∀ (w0 : World) (j : Nat) (x : Node), (w.nodes j).term ≤ x.term → w0.nodes = w.nodes →
+      (w.nodes i).term ≤ ((setNode w0 j x).nodes i).term := by
+    intro w0 j x hx hn
+    by_cases hij : i = j
+    · subst hij; rw [setNode_same]; exact hx
+    · rw [setNode_other _ _ _ _ hij, hn]; exact Int.le_refl _
+  cases a with
+  | timeout k =>
+    simp only [step] at h; split at h
+    · simp only [Option.some.injEq] at h; subst h
+      exact key w k _ (Int.le_of_lt (electTermStep_gt _)) rfl
+    · simp at h
+  | drop k =>
+    simp only [step] at h; split at h
+    · simp only [Option.some.injEq] at h; subst h; exact Int.le_refl _
+    · simp at h
+  | heartbeat k =>
+    simp only [step] at h; split at h
+    · simp only [Option.some.injEq] at h; subst h; exact Int.le_refl _
+    · simp at h
+  | finish k =>
+    simp only [step] at h
+    cases he : (w.nodes k).electing with
+    | none => simp [he] at h
+    | some vs =>
+      simp only [he] at h
+      split at h <;> (simp only [Option.some.injEq] at h; subst h; exact key w k _ (Int.le_refl _) rfl)
+  | deliver k =>
+    simp only [step] at h
+    cases hm : w.net[k]? with
+    | none => simp [hm] at h
+    | some m =>
+      simp only [hm] at h
+      cases m with
+      | voteReq c j t =>
+        simp only [] at h
+        split at h
+        · simp at h
+        · split at h
+          · rename_i hg
+            have := (voteGuard_iff _ _).mp hg
+            simp only [Option.some.injEq, voteGrantTerm_eq] at h; subst h
+            exact key _ j _ (Int.le_of_lt this) rfl
+          · simp only [Option.some.injEq] at h; subst h; exact Int.le_refl _
+      | voteResp v c t yes vt =>
+        simp only [] at h
+        cases he : (w.nodes c).electing with
+        | none => simp only [he, Option.some.injEq] at h; subst h; exact Int.le_refl _
+        | some vs =>
+          simp only [he] at h
+          split at h
+          · split at h
+            · simp only [Option.some.injEq] at h; subst h; exact key _ c _ (Int.le_refl _) rfl
+            · split at h
+              · simp only [Option.some.injEq] at h; subst h; exact key _ c _ (Int.le_refl _) rfl
+              · simp only [Option.some.injEq] at h; subst h; exact Int.le_refl _
+          · simp only [Option.some.injEq] at h; subst h; exact Int.le_refl _
+      | health l j t =>
+        simp only [] at h
+        split at h
+        · simp at h
+        · split at h
+          · simp only [Option.some.injEq] at h; subst h; exact Int.le_refl _
+          · split at h
+            · rename_i hnew
+              have := (healthNewer_iff _ _).mp hnew
+              simp only [Option.some.injEq] at h; subst h
+              exact key _ j _ (Int.le_of_lt this) rfl
+            · split at h
+              · simp only [Option.some.injEq] at h; subst h; exact key _ j _ (Int.le_refl _) rfl
+              · simp only [Option.some.injEq] at h; subst h; exact Int.le_refl _
+
+/-- **Stale-term leaders are ignored; an accepted health check installs its sender as leader at its term.**
+(One delivery step of a health message to a node whose event loop is free.) -/
+theorem health_step (w : World) (k l j : Nat) (t : Int) (hm : w.net[k]? = some (Msg.health l j t))
+    (hfree : (w.nodes j).electing = none) :
+    ∃ w', step w (.deliver k) = some w' ∧
+      (t < (w.nodes j).term → w'.nodes j = w.nodes j) ∧
+      ((w.nodes j).term ≤ t → (w'.nodes j).leader = some l ∧ (w'.nodes j).term = t) := by
+  simp only [step, hm, hfree, ne_eq, not_true_eq_false, if_false]
+  by_cases hs : healthStale t (w.nodes j).term = true
+  · have := (healthStale_iff _ _).mp hs
+    simp only [hs, if_true]
+    exact ⟨_, rfl, fun _ => rfl, fun h => by omega⟩
+  · have hns : ¬ t < (w.nodes j).term := fun h => hs ((healthStale_iff _ _).mpr h)
+    simp only [hs, Bool.false_eq_true, if_false]
+    by_cases hn : healthNewer t (w.nodes j).term = true
+    · simp only [hn, if_true]
+      exact ⟨_, rfl, fun h => absurd h hns, fun _ => by simp [setNode_same]⟩
+    · have hnn : ¬ (w.nodes j).term < t := fun h => hn ((healthNewer_iff _ _).mpr h)
+      have heq : (w.nodes j).term = t := by omega
+      simp only [hn, Bool.false_eq_true, if_false]
+      by_cases hl : (w.nodes j).leader = some l
+      · simp only [hl, ne_eq, not_true_eq_false, if_false]
+        exact ⟨_, rfl, fun h => absurd h hns, fun _ => ⟨hl, heq⟩⟩
+      · simp only [hl, ne_eq, not_false_eq_true, if_true]
+        exact ⟨_, rfl, fun h => absurd h hns, fun _ => by simp [setNode_same, heq]⟩
+
+/-- **A leader that can reach no more than half of the configured nodes is partitioned** (and `Session.dispatch`
+answers 502 while `isPartitioned` holds, session.go:596-601): with `n` configured nodes and `a` active ones. -/
+theorem partitioned_leader_stops (n a : Nat) (hn : 0 < n) :
+    isPartitioned ((n : Int) - 1) (a : Int) = true ↔ 2 * a ≤ n := partitioned_iff n a hn
+
+/-! non-vacuity: a three-node schedule that elects node 0 in term 1 -/
+example : SelfLeader (run (init 3) [.timeout 0, .deliver 0, .deliver 1, .finish 0]) 0 := by decide
+
+end election
 
 end Tinode.Props.C17
